@@ -106,6 +106,31 @@ static bool gen_c13(uint64_t seed, const std::string &tier, uint64_t i, Plan &p)
   (void)tier;
   p = Plan(); p.property = "C13"; p.world = "L"; p.seed = mix64(mix64(seed, 0xC13), i);
   Rng r(p.seed);
+  if (i % 25 == 7) {
+    // the envelope sender of forwards (dot-qmail(5), "ERROR HANDLING"): with .qmail-ext-owner present it becomes local-owner@host, with
+    // .qmail-ext-owner-default present as well it becomes the per-recipient form local-owner-@host-@[]; a null or #@[] sender is kept.
+    // Both owner files and a forwarding instruction in one home (the general plans pick up to six of seventeen names at random and
+    // almost never have the pair together with a matching extension; the coverage listing showed the branch had never run).
+    p.knobs.set("oracles", oracle_list({"c13"})).set("stick", 1.0).set("split_p", r.chance(0.3) ? 0.5 : 0.0);
+    Json home = Json::obj(); home.set("path", "/home/user1").set("mode", 0755);
+    std::string ext = r.pick(std::vector<std::string>{"list", "list", "a", "a-b", "x"}); bool deflt = r.chance(0.3);   // (deflt: the instructions come from a -default file, the owner files are still looked up under the full extension)
+    Json files = Json::arr();
+    auto addf = [&](const std::string &nm, const std::string &body) { Json f = Json::obj(); f.set("name", nm).set("mode", 0600).set("content", body); files.push(f); };
+    std::string body; int nl = (int)r.range(1, 3); for (int l = 0; l < nl; l++) body += r.pick(std::vector<std::string>{"&fwd1@r.example", "fwd2@r.example", "&fwd3@l.example", "./Mailbox", "|exit 0"}) + "\n"; body += "&last@r.example\n";
+    if (deflt) { size_t dsh = ext.rfind('-'); addf(".qmail-" + (dsh == std::string::npos ? std::string("default") : ext.substr(0, dsh) + "-default"), body); } else addf(".qmail-" + ext, body);
+    int own = (int)r.below(4);   // 0: no owner file, 1: -owner, 2: -owner and -owner-default, 3: only -owner-default (not enough: the sender stays)
+    if (own == 1 || own == 2) addf(".qmail-" + ext + "-owner", r.chance(0.5) ? "&owner@r.example\n" : "");
+    if (own == 2 || own == 3) addf(".qmail-" + ext + "-owner-default", "&owner@r.example\n");
+    if (r.chance(0.3)) addf(".qmail-default", "./Mailbox\n");
+    home.set("files", files); Json md = Json::arr(); md.push("Maildir"); home.set("maildirs", md); home.set("mbox", "Mailbox").set("mbox_initial", "");
+    p.knobs.set("home", home);
+    Json d = Json::obj(); d.set("op", "deliver").set("id", "d1").set("ext", ext).set("dash", "-").set("local", "user1-" + ext).set("host", r.pick(std::vector<std::string>{"l.example", "a.b.c.example", "host"}));
+    d.set("sender", r.pick(std::vector<std::string>{"s@x.example", "s@x.example", "", "#@[]", "list-@lists.example-@[]", "a b@x.example"}));
+    d.set("msg", "Subject: t\n\nbody\n").set("aliasempty", "./Mailbox").set("n", r.chance(0.1)).set("wait", true);
+    p.ops.push(d);
+    p.label = "owner files: ext=" + ext + " owner-mode=" + std::to_string(own) + (deflt ? " via -default" : "");
+    return true;
+  }
   p.knobs.set("oracles", oracle_list({"c13"})).set("stick", 1.0).set("split_p", r.chance(0.3) ? 0.5 : 0.0);
   Json home = Json::obj(); home.set("path", "/home/user1");
   int hm = (int)r.below(12);
